@@ -287,3 +287,35 @@ def d19_5(ctx):
                             good = all(isinstance(k, int) and isinstance(v, str) and v for k, v in tbl.items())
                             facts["entries"] = len(tbl)
     ctx.check(good, ckey(gss), gss.node, "status -> text, default text contains the hex code", "status lookup lost its table/hex fall-back", **facts)
+
+
+@rule(P, "D19.6", "T-SPEC", floor=30)
+def d19_6(ctx):
+    """DataTypes.get_type resolves every type code of the table - including the falsy code 0 - to a type that carries it,
+    and an unknown code to None: the method is folded for every member code against the table as MapMeta builds it."""
+    from ..consteval import ClassRef
+    from .common import enum_method_results
+
+    tbl = ctx.model.cls("pycomm3.cip.data_types:DataTypes")
+    gt = tbl.methods.get("get_type")
+    if gt is None:
+        ctx.undecided(ckey(tbl.key + ".get_type"), tbl.node, "anchor vanished")
+        return
+    members = {k: v for k, v in ctx.folder.enum_members(tbl).items() if isinstance(v, ClassRef)}
+    codes = {}
+    for name, v in members.items():
+        c = ctx.folder.class_attr(v.ci, "code")
+        if isinstance(c, int):
+            codes.setdefault(c, set()).add(v.ci.name)
+    unknown_code = next(x for x in range(1, 4096) if x not in codes)
+    res, _, _ = enum_method_results(ctx, tbl, gt, sorted(codes) + [unknown_code])
+    for c in sorted(codes):
+        r = res[c]
+        if r is UNKNOWN:
+            ctx.undecided(ckey(tbl.key + ".get_type", f"code:{c:#04x}"), gt, "get_type not foldable for this code")
+            continue
+        ok = isinstance(r, ClassRef) and r.ci.name in codes[c]
+        ctx.check(ok, ckey(tbl.key + ".get_type", f"code:{c:#04x}"), gt, f"get_type({c:#04x}) -> {r.ci.name if isinstance(r, ClassRef) else r!r}",
+                  f"DataTypes.get_type({c:#04x}) yields {r.ci.name if isinstance(r, ClassRef) else r!r}; the table maps that code to {sorted(codes[c])} (lookup and type resolution disagree for this code)", code=c)
+    r = res[unknown_code]
+    ctx.check(r is None, ckey(tbl.key + ".get_type", "unknown-code"), gt, "an unknown code resolves to None", f"get_type of a code outside the table yields {r!r} instead of None", code=unknown_code)
